@@ -505,4 +505,9 @@ def unit_safety(which):
 
 
 def units(tier):
-    return [unit(), unit_ld(), unit(True), unit_ld(True)] + [unit_safety(w) for w in ('hyp', 'stage2,s1 off', 'stage2,s1 on')]
+    us = [unit(), unit_ld(), unit(True)] + [unit_safety(w) for w in ('hyp', 'stage2,s1 off')]
+    if tier == 'thorough':
+        # (the Long-descriptor walk with the Virtualization Extensions present and the combination "stage 1 on + stage 2" explore
+        # several 10^5 paths: thorough tier only; the quick tier covers stage 2 with the stage 1 MMU off and Hyp mode)
+        us += [unit_ld(True), unit_safety('stage2,s1 on')]
+    return us
